@@ -122,7 +122,9 @@ func c10(x *Ctx) {
 			c.Undecided("C10.threshold-shape", name+"/comparison", x.PosOf(f.Pos()), "the kept bit is not a single comparison (another monotone formulation would have to be added after reading it)")
 		} else {
 			hashSide := func(v ssa.Value) bool {
-				_, ok := eng.Derives(v, func(w ssa.Value) bool { return w.Type().String() == "string" && (loadsField(w, traceID) || isParamNamed(w, "traceID")) }, eng.FlowOpts{ThroughCalls: true})
+				_, ok := eng.Derives(v, func(w ssa.Value) bool {
+					return w.Type().String() == "string" && (loadsField(w, traceID) || isParamNamed(w, "traceID"))
+				}, eng.FlowOpts{ThroughCalls: true})
 				return ok
 			}
 			thrSide := func(v ssa.Value) bool { return loadsField(v, thrF) }
